@@ -127,6 +127,33 @@ func runC13(c *Ctx) {
 		r.Fail("V0", "v2:limit.Rate.Recalculate", "-", "UNRESOLVED-ANCHOR: Recalculate not found")
 		return
 	}
+	// V9: the conversion is a function of its arguments alone: it reads no package-level variable
+	// except the error sentinels (a cache or scratch value kept between calls makes the result
+	// depend on other, possibly concurrent, calls)
+	r.Doc("V9", "Recalculate and its helpers use no package-level variable other than the error sentinels", 1)
+	{
+		var bad []string
+		for g := range p.Reach(fn) {
+			for _, b := range g.Blocks {
+				for _, in := range b.Instrs {
+					for _, op := range in.Operands(nil) {
+						gl, isG := (*op).(*ssa.Global)
+						if !isG {
+							continue
+						}
+						if typeShort(gl.Type().(*types.Pointer).Elem()) == "error" && strings.HasPrefix(gl.Name(), "Err") {
+							if ld, isLd := in.(*ssa.UnOp); isLd && ld.Op == token.MUL {
+								continue
+							}
+						}
+						bad = append(bad, gl.Name()+" at "+p.InstrPos(in))
+					}
+				}
+			}
+		}
+		sort.Strings(bad)
+		r.Check(len(bad) == 0, "V9", p.FnKey(fn)+"#pure", p.Pos(fn.Pos()), "no package-level state", "the conversion uses package-level variables ("+strings.Join(dedup(bad), "; ")+"): its result depends on other calls - overlapping calls mix their operands and a valid rate can come back invalid or not equivalent")
+	}
 	r.Doc("V8", "error tests are not inverted: no error value returned where it was tested nil, none dropped where tested non-nil", 3)
 	var v8 []*ssa.Function
 	for _, g := range p.errorFuncs("limit") {
